@@ -333,3 +333,62 @@ func Cases(v *eddsa.Variant, b Base, opt Options) []Case {
 	}
 	return out
 }
+
+// Floors returns, per counter of Judge ("class:*", "reason:*", "lax:*",
+// "group:*"), the least number of cases of that kind that ONE call of
+// Cases(v, b, opt) contains. The numbers follow from the structure of the
+// alphabet alone (how many strings each group has and how the reference must
+// classify them by construction); they do not depend on the base, on the
+// configuration or on anything the library under test does. A harness adds
+// them up over the Cases calls it actually makes and requires the sums, so the
+// vacuity floors scale with whatever subset of bases / flips a tier or
+// configuration enumerates.
+func Floors(v *eddsa.Variant, opt Options) map[string]int64 {
+	H := v.H
+	n := int64(v.C.N.BitLen())
+	bits := int64(8 * v.B)
+	_, nc := NonCanonicalY(v)
+	ncy := int64(len(nc))
+	var laxS int64
+	full := new(big.Int).Lsh(big.NewInt(1), uint(bits))
+	for _, j := range []int64{1, 2, 3, 4, 5, 8, 15, 255, 1023} {
+		if new(big.Int).Mul(big.NewInt(j), v.C.N).Cmp(full) < 0 {
+			laxS++
+		}
+	}
+	var junk int64
+	if v.B == 57 {
+		junk = 127
+	}
+	f := map[string]int64{
+		"group:honest":      1,
+		"class:must-accept": 1, // the honest signature
+		// small-order keys signed "by" scalar 0 (2H), keys and R with a torsion component (H-1 each):
+		// the cofactored equation holds by construction, the key is not of order L or the cofactorless one fails
+		"class:either": 4*H - 2,
+		// L, L+1, S+L, 2^n-1, 2^n, 2^n+S, all-ones, S|2^k for k = n..bits-1, and S = jL
+		"reason:S>=L":             7 + (bits - n) + laxS,
+		"lax:S-range":             laxS,
+		"lax:canonical-y":         4, // A: y=p (two signs), y=p+1; R: y=p+1
+		"lax:x0-sign":             3, // A: y=1 and y=p-1 with the sign bit; R: y=1 with the sign bit
+		"lax:canonical-y,x0-sign": 2,
+		// every y >= p string, the 6 alias strings, the 127 junk settings (honest S, so the S rule does not fire first)
+		"reason:A-not-canonical-point": ncy + 6 + junk,
+		"reason:R-not-canonical-point": ncy + 3 + junk,
+		// S in {0,1,S-1,S+1,L-1}; each small-order point as A and as R under the honest other half; message+00
+		"reason:cofactored-equation-fails": 5 + 2*H + 1,
+	}
+	if junk > 0 {
+		f["lax:unused-bits"] = 2 * junk
+	}
+	if v.HasCtx {
+		f["reason:context-too-long"] = 4
+		f["lax:context-length"] = 4
+	}
+	if opt.Flips {
+		f["group:flip-A"], f["group:flip-R"], f["group:flip-S"] = bits, bits, bits
+		// flipping one of the low n-8 bits of S keeps S' < L and S' != S mod L
+		f["reason:cofactored-equation-fails"] += n - 8
+	}
+	return f
+}
